@@ -1,2 +1,388 @@
-(* Lemmas about Model/Stats.v *)
-From GS Require Import Base.Bytes Model.GoPartial Model.Histogram Model.Stats.
+(* C08: properties of the specification [timer_spec] (order independence, "the k lowest",
+   population variance, sampled count, histogram buckets), the rank functions, and examples
+   showing that the hypotheses of the theorems are satisfiable.  The refinement theorem itself
+   is Proofs/StatsRefine.v. *)
+From Coq Require Import String.
+From Coq Require Import List ZArith QArith Qcanon Qround Lia Permutation Sorted Floats.
+From GS Require Import Base.Bytes Base.GoFloat Model.GoPartial Model.Histogram Model.Stats.
+From GS Require Export Proofs.StatsSort Proofs.Histogram Proofs.StatsRefine.
+Import ListNotations.
+Local Open Scope Z_scope.
+
+(* ---------------------------------------------------------------------------------------- *)
+(* rank *)
+
+Lemma exact_rank_range p n : -100 <= p <= 100 -> 0 <= n -> 0 <= exact_rank p n <= n.
+Proof.
+  intros Hp Hn. unfold exact_rank.
+  assert (0 <= Z.abs p * n) as H0 by (apply Z.mul_nonneg_nonneg; lia).
+  assert (Z.abs p * n <= 100 * n) as H1 by (apply Z.mul_le_mono_nonneg_r; lia).
+  split.
+  - apply Z.div_pos; lia.
+  - apply Z.lt_succ_r. apply Z.div_lt_upper_bound; lia.
+Qed.
+
+Fixpoint upto (n : nat) : list Z := match n with O => [0] | S k => Z.of_nat n :: upto k end.
+
+Lemma In_upto n z : 0 <= z <= Z.of_nat n -> In z (upto n).
+Proof.
+  induction n as [|n IH]; intros Hz; cbn [upto].
+  - left. lia.
+  - destruct (Z.eq_dec z (Z.of_nat (S n))) as [->|Hne]; [left; reflexivity | right; apply IH; lia].
+Qed.
+
+Definition rank_ok (p n : Z) : bool := let k := go_rank p n in (0 <=? k) && (k <=? n).
+
+Lemma rank_sweep_1000 : forallb (fun p => forallb (rank_ok p) (upto 1000)) (upto 100) = true.
+Proof. vm_compute. reflexivity. Qed.
+
+(* the float64 rank of the Go code stays within the slice for every size up to 1000 (finite
+   sweep over 101 x 1001 points evaluated on the kernel's binary64 floats; the bound is in the
+   statement).  C04 owns the unbounded version. *)
+Lemma go_rank_range_sweep p n : -100 <= p <= 100 -> 0 <= n <= 1000 -> 0 <= go_rank p n <= n.
+Proof.
+  intros Hp Hn.
+  assert (In (Z.abs p) (upto 100)) as Hi1 by (apply In_upto; lia).
+  assert (In n (upto 1000)) as Hi2 by (apply In_upto; lia).
+  pose proof (proj1 (forallb_forall _ _) rank_sweep_1000 (Z.abs p) Hi1) as H.
+  pose proof (proj1 (forallb_forall _ _) H n Hi2) as H'. clear H.
+  unfold rank_ok in H'. apply andb_prop in H' as [H1 H2].
+  assert (go_rank p n = go_rank (Z.abs p) n) as ->.
+  { unfold go_rank. rewrite Z.abs_involutive. reflexivity. }
+  apply Z.leb_le in H1, H2. lia.
+Qed.
+
+(* ---------------------------------------------------------------------------------------- *)
+(* order independence *)
+
+Local Open Scope Qc_scope.
+
+Lemma selected_perm rank p xs ys : Permutation xs ys -> selected rank p xs = selected rank p ys.
+Proof.
+  intros P. unfold selected. rewrite (qsort_perm_eq _ _ P), (Permutation_length P). reflexivity.
+Qed.
+
+Lemma pct_spec_perm rank m p xs ys : Permutation xs ys -> pct_spec rank m p xs = pct_spec rank m p ys.
+Proof. intros P. unfold pct_spec. rewrite (selected_perm rank p _ _ P). reflexivity. Qed.
+
+Lemma flat_map_ext_in {A B} (f g : A -> list B) l : (forall a, f a = g a) -> flat_map f l = flat_map g l.
+Proof. intros H. induction l as [|a l IH]; cbn [flat_map]; [reflexivity | rewrite H, IH; reflexivity]. Qed.
+
+Lemma timer_spec_perm rank pf c xs ys sampled tags h :
+  Permutation xs ys ->
+  sorted_values (timer_spec rank pf c xs sampled tags h)
+  = sorted_values (timer_spec rank pf c ys sampled tags h)
+  /\ (has_histogram_tag tags = false ->
+      timer_spec rank pf c xs sampled tags h = timer_spec rank pf c ys sampled tags h).
+Proof.
+  intros P.
+  assert (has_histogram_tag tags = false ->
+          timer_spec rank pf c xs sampled tags h = timer_spec rank pf c ys sampled tags h) as Hplain.
+  { intros Eh. unfold timer_spec. rewrite Eh.
+    destruct xs as [|x r].
+    { apply Permutation_nil in P. subst ys. reflexivity. }
+    destruct ys as [|y r']; [apply Permutation_sym, Permutation_nil in P; discriminate|].
+    f_equal.
+    - apply qmean_perm, P.
+    - apply qmedian_perm, P.
+    - eapply is_min_unique; [apply fold_qmin_is_min|].
+      eapply is_min_perm; [apply Permutation_sym, P | apply fold_qmin_is_min].
+    - eapply is_max_unique; [apply fold_qmax_is_max|].
+      eapply is_max_perm; [apply Permutation_sym, P | apply fold_qmax_is_max].
+    - apply qvariance_perm, P.
+    - apply qsum_perm, P.
+    - apply qsumsq_perm, P.
+    - apply qsort_perm_eq, P.
+    - apply flat_map_ext_in. intros p. apply pct_spec_perm, P. }
+  split; [|exact Hplain].
+  destruct (has_histogram_tag tags) eqn:Eh; [|rewrite Hplain; reflexivity].
+  unfold timer_spec. rewrite Eh. unfold sorted_values.
+  cbn [t_count t_sampled t_persec t_mean t_median t_min t_max t_var t_sum t_sumsq t_values t_pcts t_tags t_hist].
+  f_equal; [apply qsort_perm_eq, P | apply hist_spec_perm, P].
+Qed.
+
+(* ---------------------------------------------------------------------------------------- *)
+(* the selected values are literally the k lowest / k highest *)
+
+Lemma selected_k_lowest rank p xs :
+  let n := length xs in
+  let k := if (n =? 1)%nat then 1%nat else Z.to_nat (rank p (Z.of_nat n)) in
+  (k <= n)%nat ->
+  exists rest,
+    Permutation xs (selected rank p xs ++ rest) /\ length (selected rank p xs) = k /\
+    forall a b, In a (selected rank p xs) -> In b rest -> if (0 <? p)%Z then a <= b else b <= a.
+Proof.
+  intros n k Hk. unfold selected. fold n. fold k.
+  pose proof (qsort_sorted xs) as Hs. pose proof (qsort_perm xs) as Hp.
+  assert (length (qsort xs) = n) as HL by apply qsort_length.
+  destruct (0 <? p)%Z.
+  - exists (skipn k (qsort xs)). rewrite firstn_skipn. split; [symmetry; exact Hp|].
+    split; [apply firstn_length_le; lia|].
+    apply sorted_app_le. rewrite firstn_skipn. exact Hs.
+  - exists (firstn (n - k) (qsort xs)). split; [|split].
+    + rewrite Permutation_app_comm, firstn_skipn. symmetry. exact Hp.
+    + rewrite skipn_length. lia.
+    + intros a b Ha Hb. revert b a Hb Ha. apply sorted_app_le. rewrite firstn_skipn. exact Hs.
+Qed.
+
+(* ---------------------------------------------------------------------------------------- *)
+(* population variance *)
+
+Lemma Qc_of_Z_succ z : Qc_of_Z (z + 1) = Qc_of_Z z + 1.
+Proof.
+  apply Qc_is_canon. unfold Qc_of_Z. cbn [this Qcplus Q2Qc].
+  rewrite !Qred_correct, inject_Z_plus. reflexivity.
+Qed.
+
+Lemma qnat_S n : qnat (S n) = qnat n + 1.
+Proof. unfold qnat. rewrite Nat2Z.inj_succ. apply Qc_of_Z_succ. Qed.
+
+Lemma Qc_of_Z_0 : Qc_of_Z 0 = 0.
+Proof. apply Qc_is_canon. reflexivity. Qed.
+
+Lemma qnat_pos n : (0 < n)%nat -> 0 < qnat n.
+Proof.
+  intros Hn. unfold qnat, Qc_of_Z, Qclt. cbn [this Q2Qc]. rewrite !Qred_correct.
+  change (inject_Z 0 < inject_Z (Z.of_nat n))%Q. rewrite <- Zlt_Qlt. lia.
+Qed.
+
+Lemma qnat_nonzero n : (0 < n)%nat -> qnat n <> 0.
+Proof. intros Hn E. pose proof (qnat_pos n Hn) as H. rewrite E in H. exact (Qclt_not_eq _ _ H eq_refl). Qed.
+
+(* sum of squared deviations from any m: Konig-Huygens *)
+Lemma sum_sq_dev m l :
+  qsum (map (fun x => (x - m) * (x - m)) l) = qsumsq l - (1 + 1) * m * qsum l + qnat (length l) * m * m.
+Proof.
+  unfold qsumsq, qsum. induction l as [|x l IH]; cbn [map fold_right length].
+  - unfold qnat. cbn [Z.of_nat]. rewrite Qc_of_Z_0. ring.
+  - rewrite IH, qnat_S. ring.
+Qed.
+
+Lemma variance_is_population xs :
+  xs <> [] ->
+  let n := qnat (length xs) in
+  qmean xs * n = qsum xs /\
+  qvariance xs * n = qsum (map (fun x => (x - qmean xs) * (x - qmean xs)) xs) /\
+  qvariance xs = qsumsq xs / n - qmean xs * qmean xs.
+Proof.
+  intros Hne n.
+  assert (n <> 0) as Hn.
+  { apply qnat_nonzero. destruct xs; [congruence | cbn; lia]. }
+  assert (qmean xs * n = qsum xs) as Hm by (unfold qmean; fold n; field; exact Hn).
+  split; [exact Hm|]. split.
+  - unfold qvariance. fold n. field. exact Hn.
+  - unfold qvariance. fold n. rewrite sum_sq_dev. fold n. rewrite <- Hm. field. exact Hn.
+Qed.
+
+(* ---------------------------------------------------------------------------------------- *)
+(* sampled count *)
+
+Lemma receive_all_eq pts : receive_all pts = (map fst pts, sampled_count (map snd pts)).
+Proof.
+  unfold receive_all, sampled_count.
+  assert (forall acc, fold_left (fun acc vr => (fst acc ++ [fst vr], snd acc + / snd vr)) pts acc
+                      = (fst acc ++ map fst pts, snd acc + qsum (map Qcinv (map snd pts)))) as H.
+  { induction pts as [|[v r] pts IH]; intros [vs s]; cbn [fold_left map fst snd].
+    - rewrite app_nil_r. unfold qsum. cbn [fold_right]. f_equal. ring.
+    - rewrite IH. cbn [fst snd]. rewrite <- app_assoc. unfold qsum. cbn [fold_right app]. f_equal. ring. }
+  rewrite H. cbn [fst snd app]. f_equal. ring.
+Qed.
+
+Lemma sampled_count_perm r r' : Permutation r r' -> sampled_count r = sampled_count r'.
+Proof. intros P. apply qsum_perm, Permutation_map, P. Qed.
+
+Lemma Qcfloor_nat_half n : Qcfloor (qnat n + qhalf) = Z.of_nat n.
+Proof.
+  unfold Qcfloor. set (z := Z.of_nat n).
+  assert (this (qnat n + qhalf) == inject_Z z + (1 # 2))%Q as E.
+  { unfold qnat, Qc_of_Z, qhalf. fold z. cbn [this Qcplus Q2Qc]. rewrite !Qred_correct. reflexivity. }
+  rewrite E.
+  assert (inject_Z z <= inject_Z z + (1 # 2))%Q as H1.
+  { rewrite <- (Qplus_0_r (inject_Z z)) at 1. apply Qplus_le_r. discriminate. }
+  assert (inject_Z z + (1 # 2) < inject_Z (z + 1))%Q as H2.
+  { rewrite inject_Z_plus. apply Qplus_lt_r. reflexivity. }
+  apply Z.le_antisymm.
+  - apply Z.lt_succ_r. rewrite Zlt_Qlt. eapply Qle_lt_trans; [apply Qfloor_le|]. exact H2.
+  - rewrite <- (Qfloor_Z z) at 1. apply Qfloor_resp_le. exact H1.
+Qed.
+
+Lemma sampled_count_ones rates : (forall r, In r rates -> r = 1) -> sampled_count rates = qnat (length rates).
+Proof.
+  unfold sampled_count, qsum. induction rates as [|r rates IH]; intros H; cbn [map fold_right length].
+  - unfold qnat. cbn [Z.of_nat]. symmetry. apply Qc_of_Z_0.
+  - rewrite IH by (intros q Hq; apply H; right; exact Hq). rewrite (H r (or_introl eq_refl)), qnat_S.
+    assert (/ 1 = 1) as -> by (apply Qc_is_canon; reflexivity). ring.
+Qed.
+
+(* ---------------------------------------------------------------------------------------- *)
+(* exact rationals against bucket bounds *)
+
+Lemma Qc_of_bits_zero : Qc_of_bits (2^63) = Qc_of_bits 0.
+Proof. apply Qc_is_canon. vm_compute. reflexivity. Qed.
+
+Lemma qc_le_bound_compat b b' : bound_eqb b' b = true -> forall v, qc_le_bound v b' = qc_le_bound v b.
+Proof.
+  destruct b' as [| | |x], b as [| | |y]; cbn [bound_eqb]; try discriminate; try reflexivity.
+  intros H v. apply Bool.orb_true_iff in H as [H|H].
+  - apply Z.eqb_eq in H. subst. reflexivity.
+  - apply Bool.andb_true_iff in H as [Hx Hy]. unfold f64_is_zero in Hx, Hy.
+    apply Bool.orb_true_iff in Hx, Hy. cbn [qc_le_bound].
+    assert (Qc_of_bits x = Qc_of_bits 0) as ->.
+    { destruct Hx as [Hx|Hx]; apply Z.eqb_eq in Hx; subst; [reflexivity | apply Qc_of_bits_zero]. }
+    assert (Qc_of_bits y = Qc_of_bits 0) as ->.
+    { destruct Hy as [Hy|Hy]; apply Z.eqb_eq in Hy; subst; [reflexivity | apply Qc_of_bits_zero]. }
+    reflexivity.
+Qed.
+
+Lemma qc_le_bound_inf v : qc_le_bound v BPInf = true.
+Proof. reflexivity. Qed.
+
+(* ---------------------------------------------------------------------------------------- *)
+(* the statements of Props/C08.v *)
+
+Local Open Scope Z_scope.
+
+Definition short_tags (tags : list str) : Prop := forall tag, In tag tags -> len tag < 2^32.
+
+Lemma refines_spec_exact_rank pf c xs sampled tags h :
+  (forall p, In p (c_pcts c) -> -100 <= p <= 100) -> 0 <= c_limit c -> short_tags tags ->
+  flush_timer qc_ops pf exact_rank false c (fresh qc_ops xs sampled tags h)
+  = Ok (timer_spec exact_rank pf c xs sampled tags h).
+Proof.
+  intros Hp Hl Ht. apply flush_timer_refines_spec; try assumption.
+  intros p Hin. apply exact_rank_range; [apply Hp, Hin | apply len_nonneg].
+Qed.
+
+Lemma refines_spec_go_rank_1000 pf c xs sampled tags h :
+  (forall p, In p (c_pcts c) -> -100 <= p <= 100) -> len xs <= 1000 -> 0 <= c_limit c -> short_tags tags ->
+  flush_timer qc_ops pf go_rank false c (fresh qc_ops xs sampled tags h)
+  = Ok (timer_spec go_rank pf c xs sampled tags h).
+Proof.
+  intros Hp Hn Hl Ht. apply flush_timer_refines_spec; try assumption.
+  intros p Hin. apply go_rank_range_sweep; [apply Hp, Hin | pose proof (len_nonneg xs); lia].
+Qed.
+
+Lemma flush_order_independent rank pf c xs ys sampled tags h :
+  (forall p, In p (c_pcts c) -> 0 <= rank p (len xs) <= len xs) -> 0 <= c_limit c -> short_tags tags ->
+  Permutation xs ys -> has_histogram_tag tags = false ->
+  flush_timer qc_ops pf rank false c (fresh qc_ops xs sampled tags h)
+  = flush_timer qc_ops pf rank false c (fresh qc_ops ys sampled tags h).
+Proof.
+  intros Hr Hl Ht P Eh.
+  assert (len ys = len xs) as E by (unfold len; rewrite (Permutation_length P); reflexivity).
+  rewrite !flush_timer_refines_spec; try assumption; [|rewrite E; exact Hr].
+  f_equal. apply (timer_spec_perm rank pf c xs ys sampled tags h P), Eh.
+Qed.
+
+Lemma stddev_is_population rank pf c xs sampled tags h :
+  (forall p, In p (c_pcts c) -> 0 <= rank p (len xs) <= len xs) -> 0 <= c_limit c -> short_tags tags ->
+  xs <> [] -> has_histogram_tag tags = false ->
+  exists t, flush_timer qc_ops pf rank false c (fresh qc_ops xs sampled tags h) = Ok t /\
+    let n := qnat (length xs) in
+    (t_mean t * n = qsum xs /\
+     t_var t * n = qsum (map (fun x => (x - t_mean t) * (x - t_mean t)) xs) /\
+     t_var t = t_sumsq t / n - t_mean t * t_mean t)%Qc.
+Proof.
+  intros Hr Hl Ht Hne Eh. eexists. split; [apply flush_timer_refines_spec; assumption|].
+  unfold timer_spec. rewrite Eh. destruct xs as [|x r]; [congruence|].
+  cbn [t_mean t_var t_sumsq]. apply variance_is_population. discriminate.
+Qed.
+
+Lemma flush_histogram_timer rank pf c xs sampled tags h :
+  0 <= c_limit c -> short_tags tags -> has_histogram_tag tags = true ->
+  flush_timer qc_ops pf rank false c (fresh qc_ops xs sampled tags h)
+  = Ok (timer_spec rank pf c xs sampled tags h).
+Proof.
+  intros Hl Ht Eh. unfold flush_timer, timer_spec.
+  cbn [fresh t_tags t_values t_count t_sampled t_persec t_mean t_median t_min t_max t_var t_sum
+       t_sumsq t_pcts t_hist v0 qc_ops].
+  rewrite Eh. rewrite latency_histogram_spec; [reflexivity | exact Hl |].
+  intros tag Hf. apply Ht. apply (find_tag_Some _ _ Hf).
+Qed.
+
+Lemma histogram_spec rank pf c xs sampled tags h :
+  0 <= c_limit c -> short_tags tags -> has_histogram_tag tags = true ->
+  exists t, flush_timer qc_ops pf rank false c (fresh qc_ops xs sampled tags h) = Ok t /\
+    (* none of the summary statistics; values and sampled count kept *)
+    (t_count t = 0 /\ t_persec t = 0%Qc /\ t_mean t = 0%Qc /\ t_median t = 0%Qc /\ t_min t = 0%Qc /\
+     t_max t = 0%Qc /\ t_var t = 0%Qc /\ t_sum t = 0%Qc /\ t_sumsq t = 0%Qc /\ t_pcts t = [] /\
+     t_values t = xs /\ t_sampled t = sampled) /\
+    (* nothing at all when the limit is 0 *)
+    (c_limit c = 0 -> t_hist t = HMap []) /\
+    (* otherwise: +Inf and the first [limit] bounds of the tag that parse, each with the number
+       of values not greater than it *)
+    (0 < c_limit c ->
+     let bounds := spec_bounds pf tags (c_limit c) in
+     exists l, t_hist t = HMap l /\
+       (length l <= Z.to_nat (c_limit c) + 1)%nat /\
+       (forall b n, In (b, n) l -> n = count_le qc_le_bound b xs /\ (b = BPInf \/ In b bounds)) /\
+       hget BPInf l = Some (len xs) /\
+       (forall b, In b bounds -> b <> BNaN -> hget b l = Some (count_le qc_le_bound b xs))).
+Proof.
+  intros Hl Ht Eh. eexists. split; [apply flush_histogram_timer; assumption|].
+  unfold timer_spec. rewrite Eh.
+  cbn [t_count t_sampled t_persec t_mean t_median t_min t_max t_var t_sum t_sumsq t_values t_pcts t_tags t_hist].
+  split; [repeat split|]. split.
+  - intros E. rewrite E. reflexivity.
+  - intros Hpos. apply hist_spec_buckets; [exact Hpos | exact Eh | |exact qc_le_bound_inf].
+    intros b b' Hb v. apply qc_le_bound_compat, Hb.
+Qed.
+
+Lemma sampled_count_spec rank pf c pts tags h :
+  let xs := fst (receive_all pts) in
+  let s := snd (receive_all pts) in
+  (forall p, In p (c_pcts c) -> 0 <= rank p (len xs) <= len xs) -> 0 <= c_limit c -> short_tags tags ->
+  pts <> [] -> has_histogram_tag tags = false ->
+  xs = map fst pts /\
+  s = qsum (map (fun vr => / snd vr)%Qc pts) /\
+  (forall pts', Permutation pts pts' -> snd (receive_all pts') = s) /\
+  exists t, flush_timer qc_ops pf rank false c (fresh qc_ops xs s tags h) = Ok t /\
+    t_sampled t = s /\
+    t_count t = Qcfloor (s + qhalf) /\
+    t_persec t = (s / c_interval c)%Qc /\
+    ((forall vr, In vr pts -> snd vr = 1%Qc) -> t_count t = len pts).
+Proof.
+  intros xs s Hr Hl Ht Hne Eh. unfold xs, s in *. rewrite receive_all_eq in *. cbn [fst snd] in *.
+  split; [reflexivity|]. split; [unfold sampled_count; rewrite map_map; reflexivity|]. split.
+  { intros pts' P. rewrite receive_all_eq. cbn [snd]. symmetry.
+    apply sampled_count_perm, Permutation_map, P. }
+  eexists. split; [apply flush_timer_refines_spec; assumption|].
+  unfold timer_spec. rewrite Eh.
+  destruct pts as [|[v r] pts]; [congruence|]. cbn [map fst t_sampled t_count t_persec].
+  split; [reflexivity|]. split; [reflexivity|]. split; [reflexivity|].
+  intros Hones. rewrite sampled_count_ones.
+  - rewrite Qcfloor_nat_half. unfold len. cbn [length]. rewrite map_length. reflexivity.
+  - intros q Hq. change (In q (map snd ((v, r) :: pts))) in Hq. apply in_map_iff in Hq as [vr [<- Hvr]]. apply Hones, Hvr.
+Qed.
+
+(* ---------------------------------------------------------------------------------------- *)
+(* the hypotheses are satisfiable, on a non-trivial timer *)
+
+Definition ex_cfg : config Qc :=
+  {| c_pcts := [90; -50; 0; 100]; c_mask := Build_pmask false false false false false false;
+     c_limit := 2; c_interval := Qc_of_Z 10 |}.
+Definition ex_xs : list Qc := map Qc_of_Z [12; 2; 4; 2; 7].
+
+Example ex_hypotheses :
+  (forall p, In p (c_pcts ex_cfg) -> 0 <= go_rank p (len ex_xs) <= len ex_xs) /\
+  0 <= c_limit ex_cfg /\ short_tags [bs "a:b"] /\ has_histogram_tag [bs "a:b"] = false.
+Proof.
+  assert (len ex_xs = 5) as E by reflexivity.
+  split; [|split; [|split]].
+  - intros p Hp. rewrite E. apply go_rank_range_sweep; [|lia].
+    cbn [c_pcts ex_cfg In] in Hp. lia.
+  - cbn [c_limit ex_cfg]. lia.
+  - intros tag [<-|[]]. reflexivity.
+  - reflexivity.
+Qed.
+
+Example ex_flush :
+  match flush_timer qc_ops (fun _ => None) go_rank false ex_cfg (fresh qc_ops ex_xs (Qc_of_Z 5) [bs "a:b"] HNil) with
+  | Ok t => t_min t = Qc_of_Z 2 /\ t_max t = Qc_of_Z 12 /\ t_median t = Qc_of_Z 4 /\ t_sum t = Qc_of_Z 27
+            /\ t_count t = 5
+            /\ map fst (t_pcts t) = [nm "count_" 90; nm "mean_" 90; nm "sum_" 90; nm "sum_squares_" 90; nm "upper_" 90;
+                                    nm "count_" (-50); nm "mean_" (-50); nm "sum_" (-50); nm "sum_squares_" (-50); nm "lower_" (-50);
+                                    nm "count_" 100; nm "mean_" 100; nm "sum_" 100; nm "sum_squares_" 100; nm "upper_" 100]
+  | Panic => False
+  end.
+Proof. vm_compute. repeat split. Qed.
